@@ -260,6 +260,8 @@ class State:
         self.derived = {}       # objid of a call result -> object ids passed to that call
         self.tri = {}           # local name -> subset of {'none', 'falsy', 'truthy'} it may be
         self.log = []           # path-ordered events recorded by rule hooks (e.g. constructed tokens)
+        self.calls = {}         # objid of a call result -> (callee name, argument values)
+        self.impl = []          # (antecedent tri key, consequent local name): antecedent truthy => name truthy
 
     def copy(self):
         s = State()
@@ -272,6 +274,8 @@ class State:
         s.derived = dict(self.derived)
         s.tri = dict(self.tri)
         s.log = list(self.log)
+        s.calls = dict(self.calls)
+        s.impl = list(self.impl)
         return s
 
 
@@ -284,6 +288,7 @@ class Facts:
         self.len_pairs = set()  # (text_field, len_field): len(x.text_field) == x.len_field for any object x
         self.method_types = {}  # method name -> class name of result (or list element)
         self.base_len = {}
+        self.conditional_match = False
 
     def len_of_base(self, bid):
         if isinstance(bid, tuple) and bid[0] == 'fld':
@@ -322,9 +327,10 @@ class _DeadPath(Exception):
 class Walker:
     """on_check(kind, state, objid, node): called at escape points / path ends for objects with written span fields"""
 
-    def __init__(self, fn, facts, on_check, clsname=None, max_paths=MAX_PATHS, focus=None):
+    def __init__(self, fn, facts, on_check, clsname=None, max_paths=MAX_PATHS, focus=None, assume_none=()):
         self.fn = fn
         self.focus = focus      # root names whose span stores matter (None = all)
+        self.assume_none = set(assume_none)   # scenario slicing: these locals hold None whenever assigned from a call
         self.facts = facts
         self.on_check = on_check
         self.clsname = clsname
@@ -408,11 +414,25 @@ class Walker:
         return r
 
     def skip(self, st, node):
-        """an irrelevant region: only havoc what it assigns"""
+        """an irrelevant region: only havoc what it assigns (only the feasible branch of a decided `if`)"""
+        if isinstance(node, ast.If):
+            fa = self.refine(st.copy(), node.test, True)
+            fb = self.refine(st.copy(), node.test, False)
+            if fa != fb:
+                for sub in (node.body if fa else node.orelse):
+                    self.skip(st, sub)
+                return [(st, 'fall', None)]
+        if isinstance(node, ast.Assign) and len(node.targets) == 1 and isinstance(node.targets[0], ast.Name) \
+                and isinstance(node.value, ast.Constant):
+            # an unconditional `flag = <constant>` of the executed branch is tracked exactly
+            self.assign(st, node.targets[0], self.ev(st, node.value), node)
+            return [(st, 'fall', None)]
         for n in ast.walk(node):
             if isinstance(n, ast.Name) and isinstance(n.ctx, ast.Store):
                 st.vars[n.id] = Unk(fresh('skip.' + n.id))
                 st.tri.pop(n.id, None)
+                for k in [k for k in st.tri if k.startswith('(') and _mentions(k, n.id) or k.startswith(n.id + '.')]:
+                    del st.tri[k]
             elif isinstance(n, ast.Attribute) and isinstance(n.ctx, ast.Store):
                 rn = _rootname(n.value)
                 if rn in st.vars and isinstance(st.vars[rn], (ObjRef, Unk)) and isinstance(n.value, ast.Name):
@@ -453,6 +473,16 @@ class Walker:
         if v is not None:
             return v
         cls = st.objcls.get(oid)
+        if cls == 'ConditionalMatch' and self.facts.conditional_match:
+            # ConditionalMatch.length is len(group()) (verified on the class by the rule that enables this fact)
+            if attr == 'length':
+                return Lin.atom(('mend', oid, ())) - Lin.atom(('mstart', oid, ()))
+            if attr == 'index':
+                fn_, av = st.calls.get(oid, (None, ()))
+                # a successful match_begin(pattern, <entity>.text, trim) starts the entity text: the code itself relies on
+                # it (it advances start by the match length alone); recorded as an assumption of the rule
+                if fn_ == 'match_begin' and len(av) >= 2 and isinstance(av[1], (SStr, Unk)) and as_str(av[1]).kind == 'otext':
+                    return Lin(0)
         if cls and (cls, attr) in self.facts.props:
             return self.facts.props[(cls, attr)](lambda f: as_lin(self.field(st, oid, f)))
         v = Unk(('fld', oid, attr))
@@ -686,6 +716,7 @@ class Walker:
         res = Unk(('call', fresh(fname or 'call')))
         if snap:
             st.derived[res.id] = tuple(snap)
+        st.calls[res.id] = (fname, tuple(argv))
         t = self.facts.method_types.get(fname)
         if t:
             st.objcls[res.id] = t
@@ -777,9 +808,36 @@ class Walker:
         return out
 
     def assign(self, st, tgt, val, node):
+        rn = _rootname(tgt)
+        if rn is not None:
+            tgt_text = ast.unparse(_load(tgt))
+            for k in list(st.tri):
+                if k.startswith('('):
+                    if _mentions(k, rn if isinstance(tgt, ast.Name) else tgt_text):
+                        del st.tri[k]
+                elif k.startswith(rn + '.') and (isinstance(tgt, ast.Name) or k == tgt_text):
+                    del st.tri[k]
         if isinstance(tgt, ast.Name):
+            srcv = getattr(node, 'value', None)
+            monotone = isinstance(node, ast.Assign) and isinstance(srcv, ast.BoolOp) and isinstance(srcv.op, ast.Or) \
+                and any(isinstance(v, ast.Name) and v.id == tgt.id for v in srcv.values)
+            # `flag = flag or E` only ever raises the flag: what implied it before still implies it
+            st.impl = [(a, c) for a, c in st.impl if (c != tgt.id or monotone) and not _mentions('(' + a + ')', tgt.id)]
+            keep_tri = None
+            if isinstance(node, ast.Assign) and isinstance(srcv, ast.BoolOp) and isinstance(srcv.op, ast.Or) \
+                    and any(isinstance(v, ast.Name) and v.id == tgt.id for v in srcv.values):
+                # flag = flag or E: E truthy implies the flag; a flag already known truthy stays truthy
+                for v in srcv.values:
+                    if isinstance(v, ast.Attribute) and _plain_chain(v):
+                        st.impl.append((ast.unparse(v), tgt.id))
+                    elif isinstance(v, ast.Name) and v.id != tgt.id:
+                        st.impl.append((v.id, tgt.id))
+                if st.tri.get(tgt.id) == frozenset(['truthy']):
+                    keep_tri = st.tri[tgt.id]
             st.vars[tgt.id] = val
             st.tri.pop(tgt.id, None)
+            if keep_tri is not None:
+                st.tri[tgt.id] = keep_tri
             src = getattr(node, 'value', None)
             if isinstance(node, (ast.Assign, ast.AnnAssign)) and isinstance(src, ast.Constant):
                 if src.value is None:
@@ -791,6 +849,8 @@ class Walker:
             elif isinstance(node, (ast.Assign, ast.AnnAssign)) and isinstance(src, ast.Call) and isinstance(src.func, ast.Name) \
                     and src.func.id in self.facts.ctors:
                 st.tri[tgt.id] = frozenset(['truthy'])
+            elif tgt.id in self.assume_none and isinstance(node, (ast.Assign, ast.AnnAssign)) and isinstance(src, ast.Call):
+                st.tri[tgt.id] = frozenset(['none'])
         elif isinstance(tgt, ast.Attribute):
             base = self.ev(st, tgt.value)
             if isinstance(base, (SStr, Lin, TupleVal)):
@@ -924,6 +984,14 @@ class Walker:
         """narrow the three-valued facts of local names under `test == truth`; False if infeasible"""
         if isinstance(test, ast.UnaryOp) and isinstance(test.op, ast.Not):
             return self.refine(st, test.operand, not truth)
+        if isinstance(test, (ast.BoolOp, ast.Compare)) and _call_free(test):
+            # the same compound condition tested twice on one path has one truth value
+            key = '(' + ast.unparse(test) + ')'
+            cur = st.tri.get(key)
+            want = frozenset(['truthy']) if truth else frozenset(['none', 'falsy'])
+            if cur is not None and not (cur & want):
+                return False
+            st.tri[key] = want
         if isinstance(test, ast.BoolOp):
             conj = isinstance(test.op, ast.And)
             if conj == truth:
@@ -940,6 +1008,14 @@ class Walker:
             return feas
         name = None
         allowed = None
+        if isinstance(test, ast.Attribute) and _plain_chain(test):
+            key = ast.unparse(test)
+            cur = st.tri.get(key, self.ALL3)
+            new = cur & (frozenset(['truthy']) if truth else frozenset(['none', 'falsy']))
+            if not new:
+                return False
+            st.tri[key] = new
+            return self._propagate(st, key)
         if isinstance(test, ast.Name):
             name = test.id
             allowed = frozenset(['truthy']) if truth else frozenset(['none', 'falsy'])
@@ -956,6 +1032,26 @@ class Walker:
         if not new:
             return False
         st.tri[name] = new
+        return self._propagate(st, name)
+
+    def _propagate(self, st, key):
+        """implications recorded for `flag = flag or E`"""
+        val = st.tri.get(key)
+        if val == frozenset(['truthy']):
+            for a, c in st.impl:
+                if a == key:
+                    cur = st.tri.get(c, self.ALL3)
+                    if 'truthy' not in cur:
+                        return False
+                    st.tri[c] = frozenset(['truthy'])
+        elif val is not None and 'truthy' not in val:
+            for a, c in st.impl:
+                if c == key:
+                    cur = st.tri.get(a, self.ALL3)
+                    new = cur - {'truthy'}
+                    if not new:
+                        return False
+                    st.tri[a] = new
         return True
 
     def havoc_assigned(self, st, stmts):
@@ -989,6 +1085,8 @@ class Walker:
         for n in names:
             st.vars[n] = Unk(fresh('loop.' + n))
             st.tri.pop(n, None)
+            for k in [k for k in st.tri if k.startswith('(') and _mentions(k, n) or k.startswith(n + '.')]:
+                del st.tri[k]
         for k in list(st.heap):
             if k[1] in fields and k[0] not in st.fresh_objs:
                 st.heap[k] = Unk(fresh('loop.%s' % k[1]))
@@ -1064,6 +1162,21 @@ class Walker:
 
 def _names(e):
     return {n.id for n in ast.walk(e) if isinstance(n, ast.Name)}
+
+
+def _call_free(e):
+    return not any(isinstance(n, (ast.Call, ast.Subscript, ast.Lambda, ast.IfExp)) for n in ast.walk(e))
+
+
+def _mentions(key, text):
+    import re
+    return re.search(r'(?<![\w.])' + re.escape(text) + r'(?![\w])', key) is not None
+
+
+def _plain_chain(e):
+    while isinstance(e, ast.Attribute):
+        e = e.value
+    return isinstance(e, ast.Name)
 
 
 def _rootname(e):
